@@ -116,13 +116,13 @@ impl ChatLog {
     pub fn from_existing(buffer: ByteSpan) -> Option<ChatLog> {
         let mut cursor = Cursor::new(buffer);
 
-        let header = ChatLogHeader::read(&mut cursor).expect("Cannot parse header.");
+        let header = ChatLogHeader::read(&mut cursor).ok()?;
         // Dumb check for obviously wrong values
         if header.content_size as usize > buffer.len() || header.file_size as usize > buffer.len() {
             return None;
         }
 
-        let content_offset = (8 + header.file_size * 4) as u64;
+        let content_offset = 8 + header.file_size as u64 * 4;
 
         // beginning of content offset
         //cursor.seek(SeekFrom::Start(content_offset)).ok()?;
@@ -134,7 +134,7 @@ impl ChatLog {
 
             cursor.seek(SeekFrom::Start(new_last_offset)).ok()?;
 
-            let mut entry = ChatLogEntry::read(&mut cursor).expect("Unable to parse log message.");
+            let mut entry = ChatLogEntry::read(&mut cursor).ok()?;
 
             let next_offset = if i + 1 == header.offset_entries.len() {
                 buffer.len()
@@ -144,7 +144,7 @@ impl ChatLog {
 
             // TODO: handle the coloring properly, in some way
             entry.message =
-                String::from_utf8_lossy(&buffer[cursor.position() as usize..next_offset])
+                String::from_utf8_lossy(buffer.get(cursor.position() as usize..next_offset)?)
                     .to_string();
 
             entries.push(entry);
